@@ -267,12 +267,16 @@ def build_data(cfg, src):
         mdim = "model"
         gdim = "global"
         coords = [(mdim, np.asarray(ds["maxis"], dtype=float)), (gdim, np.asarray(ds["gaxis"], dtype=float))]
-        da = xr.DataArray(np.asarray(arr), coords=coords)
-        dset = da.to_dataset(name="data")
-        if w is not None:
-            dset["weight"] = xr.DataArray(np.asarray(w), coords=coords)
         if ds.get("order") == "gm":
-            dset = dset.transpose(gdim, mdim)
+            # natively stored as (global, model), C-contiguous - as data read from a (pixel, time) file would be
+            gcoords = [coords[1], coords[0]]
+            dset = xr.DataArray(np.ascontiguousarray(np.asarray(arr).T), coords=gcoords).to_dataset(name="data")
+            if w is not None:
+                dset["weight"] = xr.DataArray(np.ascontiguousarray(np.asarray(w).T), coords=gcoords)
+        else:
+            dset = xr.DataArray(np.asarray(arr), coords=coords).to_dataset(name="data")
+            if w is not None:
+                dset["weight"] = xr.DataArray(np.asarray(w), coords=coords)
         data[lab] = dset
     return data
 
